@@ -99,6 +99,9 @@ def run(ctx):
     base = [job(D, g, m, c, s) for D in Ds for g in ("lin", "log") for m in ("det", "decl") for c in ("half", "ball", "slab", "annulus") for s in seeds]
     base += [job(D, g, "det", c, seeds[0], target=t) for D in Ds for g in ("lin", "log") for c in ("half", "ball", "annulus") for t in ("sphere_corner", "sphere_out")]
     base += [job(D, "lin", m, c, seeds[0], x0="absent") for D in Ds for m in ("det", "decl") for c in ("ball",)]
+    # the remaining noise modes (the filter must not depend on how the noise is handled) and fully unbounded problems
+    base += [job(D, g, m, c, seeds[0], target="sphere_out") for D in Ds for g in ("lin", "log2") for m in ("spec", "auto") for c in ("half", "ball", "annulus", "ball_r")]
+    base += [job(D, "unb", m, c, seeds[0], target=t) for D in Ds for m in ("det", "decl", "spec") for c in ("ball", "half", "annulus") for t in ("sphere_out", "sphere_corner")]
     # constraints returning a column vector (N, 1)
     base += [job(D, g, m, c, seeds[0], target="sphere_out") for D in Ds for g in ("lin", "log2") for m in ("det", "decl") for c in ("half_c", "ball_c", "annulus_c")]
     # real-valued constraints (amount of violation; small positive values near the boundary) and further geometries
